@@ -142,3 +142,24 @@ Proof. vm_compute. reflexivity. Qed.
 Example ex_sink : write_seq [le64 1; le64 2; [7; 7; 7]] (mksink [] 10 OtherErr)
   = (mksink [1; 0; 0; 0; 0; 0; 0; 0; 2; 0] 0 OtherErr, IoErr OtherErr).
 Proof. vm_compute. reflexivity. Qed.
+
+(* ================================================================ the run-length vector *)
+
+Require Import SDS.Model.RL SDS.Spec.Runs SDS.Proofs.SerRL.
+
+(* RLVector::load on EVERY strict prefix of the serialization of a built vector is an I/O error - not a
+   structure, not a panic (the rebuilt indexes are never reached: the four fields are read first) *)
+Theorem C14_truncation_rl : forall (m : mode) (R : list (N * N)) (L : N),
+  runs_sorted 0 R -> runs_end R <= L -> L <= 2 ^ 64 - 1 -> lenN R < 2 ^ 55 ->
+  exists v,
+    rl_build m (map (fun r => BTrySet (fst r) (snd r)) R ++ [BSetLen L]) = Ok (v, map (fun _ => true) R ++ [true]) /\
+    forall k, (k < length (c_enc (rl_codec m) v))%nat -> exists e, c_dec (rl_codec m) (firstn k (c_enc (rl_codec m) v)) = IoErr e.
+Proof.
+  intros m R L Hs He HL Hn. destruct (rl_built_wf m R L Hs He HL Hn) as (v & Hb & Hwf).
+  exists v. split; [exact Hb|]. exact (ok_truncation _ v (rl_codec_ok m) Hwf).
+Qed.
+Print Assumptions C14_truncation_rl.
+
+Theorem C14_truncation_rl_wf : forall m v, c_wf (rl_codec m) v -> truncation_safe (rl_codec m) v.
+Proof. intros m v H. exact (ok_truncation _ v (rl_codec_ok m) H). Qed.
+Print Assumptions C14_truncation_rl_wf.
